@@ -14,6 +14,7 @@ from .pdb import AnalysisBroken
 
 STATE = ("fld", ("arg", 0), "rtr_socket.state")
 CHANGE = "rtr_change_socket_state"
+ARMSTATE = ("X", "state set on this path")
 
 
 class ArmHooks(flow.Hooks):
@@ -42,17 +43,10 @@ class ArmHooks(flow.Hooks):
         return ("M", pe) in self.init_facts(self.fn)
 
     def load_override(self, pe, E):
-        # the state the arm is entered with (a switch on the state is decided through this, an if/else chain through decide)
+        # the state the arm is entered with - until rtr_change_socket_state on this path has set another one
         if pe == STATE:
-            return flow.av_in(self.K)
-        return None
-
-    def decide(self, inst, E):
-        a, b = E.flow.expr(inst["a"]), E.flow.expr(inst["b"])
-        for x, y in ((a, b), (b, a)):
-            if x == ("load", STATE) and y[0] == "c" and inst["pred"] in ("eq", "ne"):
-                r = (y[1] == self.K)
-                return r if inst["pred"] == "eq" else not r
+            v = E.facts.get(ARMSTATE)
+            return v if v is not None else flow.av_in(self.K)
         return None
 
     def on_inst(self, inst, prop, E):
@@ -85,6 +79,8 @@ class ArmHooks(flow.Hooks):
                 return outs
             if cal == CHANGE:
                 k = flow.av_single(E.val(inst.args[1]))
+                if k is not None:
+                    return [(prop + (("state", k, inst.line),), {"__facts__": True, ARMSTATE: flow.av_in(k)})]
                 return prop + (("state", k, inst.line),)
             if cal in self.interesting:
                 return prop + (("call", cal, None, inst.line),)
